@@ -485,6 +485,77 @@ pub fn m3(level: u8) -> Vec<Model> {
     out
 }
 
+/// M4: clause-rich models: several clauses sharing equality / disequality literals on one
+/// variable with interior values, next to one linear constraint that moves several variables in
+/// one propagation round (so that the nogood propagator meets conflicts while scanning the
+/// watchers of one variable, re-propagates after backjumps, etc.).
+pub fn m4(level: u8) -> Vec<Model> {
+    let vars = vec![
+        VarDecl::interval(0, 1), // z
+        VarDecl::interval(0, 3), // x
+        VarDecl::interval(0, 1), // a
+        VarDecl::interval(0, 1), // b
+    ];
+    let (z, x, a, b) = (0usize, 1usize, 2usize, 3usize);
+    let mut linear: Vec<Con> = vec![];
+    for r in [1, 2] {
+        linear.push(Con::LinLe(
+            vec![View::id(x), View::new(a, 2, 0), View::new(z, -2, 0)],
+            r,
+        ));
+    }
+    linear.push(Con::LinLe(vec![View::id(x), View::id(a), View::id(b)], 3));
+    linear.push(Con::LinLe(
+        vec![View::new(x, -1, 0), View::new(b, -2, 0), View::new(z, 2, 0)],
+        -2,
+    ));
+    if level >= 1 {
+        linear.push(Con::LinNe(vec![View::id(x), View::id(a)], 2));
+        linear.push(Con::LinEq(vec![View::id(x), View::id(a), View::id(z)], 3));
+        linear.push(Con::Max(vec![View::id(a), View::id(b)], View::id(z)));
+    }
+    let xs = [
+        Pred::new(x, PredKind::Eq, 1),
+        Pred::new(x, PredKind::Eq, 2),
+        Pred::new(x, PredKind::Ne, 1),
+        Pred::new(x, PredKind::Ne, 2),
+        Pred::new(x, PredKind::Ge, 2),
+        Pred::new(x, PredKind::Le, 1),
+    ];
+    let os = [
+        Pred::new(a, PredKind::Ge, 1),
+        Pred::new(a, PredKind::Le, 0),
+        Pred::new(b, PredKind::Ge, 1),
+        Pred::new(b, PredKind::Le, 0),
+        Pred::new(z, PredKind::Ge, 1),
+        Pred::new(z, PredKind::Le, 0),
+    ];
+    let mut clauses: Vec<Con> = vec![];
+    for p in xs {
+        for q in os {
+            clauses.push(Con::PredClause(vec![p, q]));
+        }
+    }
+    let mut out = vec![];
+    let stride = if level >= 1 { 1 } else { 3 };
+    let mut k = 0usize;
+    for l in &linear {
+        for i in 0..clauses.len() {
+            for j in i + 1..clauses.len() {
+                k += 1;
+                if k % stride != 0 {
+                    continue;
+                }
+                out.push(Model::new(
+                    vars.clone(),
+                    vec![l.clone(), clauses[i].clone(), clauses[j].clone()],
+                ));
+            }
+        }
+    }
+    out
+}
+
 /// Is the model non-trivial: neither every assignment is a solution nor none.
 pub fn nontrivial(model: &Model, num_solutions: usize) -> bool {
     num_solutions > 0 && (num_solutions as u64) < model.space_size()
